@@ -59,3 +59,30 @@ func TestWitnessFirstTagAllOnes(t *testing.T) {
 			"source timestamps 4294967295, 39, 79 (32-bit clock wrapping) written as %v, want 0, 40, 80", out)
 	}
 }
+
+// Audio ahead of the in-band parameter sets (SDP without sprop-*): the muxer
+// used to answer the first AAC frame with metadata saying width = height = 0
+// and, for H.265, with an HEVC configuration record holding empty VPS/SPS/PPS
+// that was never replaced once the real sets had arrived.
+func TestWitnessAudioAheadOfParameterSets(t *testing.T) {
+	for _, codecName := range []string{"H265", "H264"} {
+		s := &Scenario{Layer: "muxer", Codec: codecName, PS: 0, Audio: true, Late: "nothing", AudioLead: 2, Base: "witness"}
+		keyType, min := 5, 1
+		if codecName == "H265" {
+			keyType, min = 19, 2
+		}
+		s.Frames = []Frame{
+			{Audio: true, Size: 7, Seed: 1, Dts: 0, Pts: 0},
+			{Audio: true, Size: 9, Seed: 2, Dts: 23 * ms, Pts: 23 * ms},
+			{NalType: keyType, NRI: 3, Size: min + 30, Seed: 3, Dts: 40 * ms, Pts: 40 * ms},
+			{Audio: true, Size: 8, Seed: 4, Dts: 46 * ms, Pts: 46 * ms},
+			{NalType: 1, NRI: 2, Size: min + 10, Seed: 5, Dts: 80 * ms, Pts: 80 * ms},
+		}
+		s.Joins = []Join{{At: 0, Mode: "cache"}}
+		fl, _ := runScenario(s)
+		evid.Eval(1)
+		if fl != nil {
+			evid.Violation(t, fl.Check, s, "%s — %s", s.summary(), fl.Msg)
+		}
+	}
+}
